@@ -56,6 +56,7 @@ Expand(ts, i, acc, lastval) ==
   ELSE LET t == ts[i] IN
        CASE t.kind = "r" -> Expand(ts, i + 1, acc \o [k \in 1..t.n |-> acc[Len(acc)]], lastval)
          [] t.kind = "m" -> Expand(ts, i + 1, Append(acc, ToString(lastval * t.n)), lastval * t.n)
+         [] t.kind = "h" -> Expand(ts, i + 1, Append(acc, ToString(lastval \div t.n)), lastval \div t.n)   \* a real factor: 0.5m
          [] t.kind = "i" -> LET hi == ts[i + 1].val IN
                             Expand(ts, i + 1, acc \o [k \in 1..t.n |-> ToString(lastval + (k * (hi - lastval)) \div (t.n + 1))],
                                    lastval)
@@ -164,6 +165,13 @@ ContractM == /\ Step("multiply")
                   /\ l.toks[1].id = "imp:n"
                   /\ Plain(l.toks[j]) /\ Plain(l.toks[j - 1]) /\ l.toks[j - 1].val > 0 /\ l.toks[j].val = 2 * l.toks[j - 1].val
                   /\ lines' = [lines EXCEPT ![i].toks[j] = Short("m", 2, "2m", <<>>)]
+(* the factor of xM is a real number: "2 1" -> "2 0.5m" *)
+ContractH == /\ Step("half")
+             /\ \E i \in CardIdx : \E j \in 3..Len(lines[i].toks), w \in {"0.5m", ".5m", "5-1m"} :
+                  LET l == lines[i] IN
+                  /\ l.toks[1].id = "imp:n"
+                  /\ Plain(l.toks[j]) /\ Plain(l.toks[j - 1]) /\ l.toks[j].val > 0 /\ l.toks[j - 1].val = 2 * l.toks[j].val
+                  /\ lines' = [lines EXCEPT ![i].toks[j] = Short("h", 2, w, <<>>)]
 ContractI == /\ Step("interpolate")
              /\ \E i \in CardIdx : \E j \in 3..(Len(lines[i].toks) - 1) :
                   LET l == lines[i] IN
@@ -184,7 +192,7 @@ Emit == /\ depth >= 1 /\ last # "emitted"
         /\ PrintT(ToJson([lines |-> lines, depth |-> depth, last |-> last, spelled |-> ReadSpelled(lines)]))
         /\ last' = "emitted" /\ UNCHANGED <<lines, depth>>
 Rewrite == ChangeCase \/ WidenBlanks \/ SplitIndent \/ SplitAmp \/ InsertComment \/ IndentCard \/ AddDollar \/ AddMessage
-           \/ Respell \/ Contract \/ Contract2 \/ ContractM \/ ContractI \/ ContractJ
+           \/ Respell \/ Contract \/ Contract2 \/ ContractM \/ ContractH \/ ContractI \/ ContractJ
 Next == (last # "emitted" /\ Rewrite) \/ Emit
 Spec == Init /\ [][Next]_vars
 
